@@ -54,7 +54,7 @@ def run(chk):
                    f'both passes iterate {rc[0]} over {rc[1]}, but the block table has Nthread + 1 edges: host blocks are skipped (or edges beyond the table are read) whenever the two counts differ'),
                   node=P.fill)
         # R3
-        okal = P.gs_alloc is not None and unparse(P.gs_alloc.value.args[0]) == '(Nthread + 1, 3)' and P.nout_alloc is not None and \
+        okal = P.gs_alloc is not None and unparse(P.gs_alloc.value.args[0]) in ('(Nthread + 1, 3)', '(len(Nout) + 1, 3)', '(Nout.shape[0] + 1, 3)') and P.nout_alloc is not None and \
             unparse(P.nout_alloc.value).startswith('np.zeros((Nthread, 3,')
         chk.check(okal and P.gs_zero is not None, 'C10-R3', GH, name, 'gstart has Nthread+1 rows, first row zero; counters zero-initialised per thread', '',
                   'gstart / Nout allocation or the zero first row changed: cursors would start at garbage', node=P.gs_alloc or fn)
